@@ -37,12 +37,13 @@ static int cmp(const void * a, const void * b, void * p)
 }
 
 static int vis_log[4 * MAXE], vis_n, vis_stop;
+static int vsign = 1;   /* sign of the visitor's non-zero answer (header vsign); the result is printed times vsign */
 static int visit(void * e, void * p)
 {
     (void)p;
     if (vis_n < 4 * MAXE) vis_log[vis_n] = idof(e);
     vis_n++;
-    return (vis_stop > 0 && vis_n == vis_stop) ? vis_stop : 0;
+    return (vis_stop > 0 && vis_n == vis_stop) ? vsign * vis_stop : 0;
 }
 static void clr(void * e, void * p)
 {
@@ -71,7 +72,7 @@ static void run_case(const struct h_case * c)
 {
     int i, k, started = 0;
 
-    nkeys = 0; nlists = 1; cmpmode = 0; cmpcalls = 0;
+    nkeys = 0; nlists = 1; cmpmode = 0; cmpcalls = 0; vsign = 1;
     memset(pool, 0, sizeof(pool));
     for (i = 0; i < c->nlines; i++) {
         const struct h_line * l = &c->lines[i];
@@ -83,6 +84,7 @@ static void run_case(const struct h_case * c)
         }
         if (h_weq(l, 0, "nlists")) { nlists = a; continue; }
         if (h_weq(l, 0, "cmpmode")) { cmpmode = a; continue; }
+        if (h_weq(l, 0, "vsign")) { vsign = a < 0 ? -1 : 1; continue; }
         if (!started) {
             for (k = 0; k < nlists; k++)
                 cstl_slist_init(&lists[k], offsetof(struct elem, sn));
@@ -112,7 +114,7 @@ static void run_case(const struct h_case * c)
             int r;
             vis_n = 0; vis_stop = b;
             r = cstl_slist_foreach(&lists[a], visit, NULL);
-            printf("ok %d", r);
+            printf("ok %d", vsign * r);
             for (k = 0; k < vis_n && k < 4 * MAXE; k++) printf(" %d", vis_log[k]);
         }
         else if (h_weq(l, 0, "clear")) {
